@@ -20,6 +20,19 @@ RUN_MODULES = {
     "redress.policy.base",
 }
 
+def _known_modules() -> set[str]:
+    import os
+
+    path = os.path.join(os.path.dirname(os.path.dirname(os.path.abspath(__file__))), "known_funcs.txt")
+    try:
+        with open(path) as fh:
+            return {ln.split(":", 1)[0].strip() for ln in fh if ln.strip()}
+    except OSError:
+        return set()
+
+
+KNOWN_MODULES = _known_modules()
+
 ALL_KINDS = (
     "AbortRetryError",
     "CancelledError",
@@ -60,7 +73,10 @@ class RunnerClient(Client):
         self.prog = prog
 
     def descend(self, fi: FuncInfo, ev: Event) -> bool:
-        return fi.module.name in RUN_MODULES
+        if fi.module.name in RUN_MODULES:
+            return True
+        # a module that did not exist when the rules were written (code moved out of the run-path modules)
+        return fi.module.name.startswith("redress.policy") and fi.module.name not in KNOWN_MODULES
 
     def relevant_iter(self, ev: Event) -> bool:
         # the attempt loop iterates range(...); loops over containers in helpers (copying tags, scanning hooks) are incidental
